@@ -53,6 +53,9 @@ func genC20(t *rapid.T) c20Case {
 		c.Exts[i].PkgsMod = rapid.IntRange(1, 3).Draw(t, "pkgs")
 		c.Exts[i].NoPURLMod = rapid.SampledFrom([]int{0, 0, 1, 2, 3}).Draw(t, "no_purl_mod")
 		c.Exts[i].PurlType = rapid.SampledFrom([]string{"", "pypi", "npm", "deb"}).Draw(t, "purl_type")
+		c.Exts[i].PurlNS = rapid.SampledFrom([]string{"", "", "debian", "@scope", "org.example", "github.com/a"}).Draw(t, "purl_ns")
+		c.Exts[i].PurlNameMode = rapid.SampledFrom([]int{0, 0, 0, 1, 2}).Draw(t, "purl_name_mode")
+		c.Exts[i].PurlQual = rapid.IntRange(0, 3).Draw(t, "purl_qual") == 0
 		if rapid.Bool().Draw(t, "pred_all") {
 			c.Exts[i].Pred = recext.Pred{Kind: "all"}
 		}
@@ -143,6 +146,7 @@ func propC20(c c20Case) (ev.Outcome, error) {
 	// the packages extracted in this scan that have a package URL
 	withPurl := map[*extractor.Package]bool{}
 	nNoPurl := 0
+	nsSeen, nameDiffers := false, false
 	for _, p := range res.Inventory.Packages {
 		if p.Extractor != nil && p.Extractor.ToPURL(p) != nil {
 			withPurl[p] = true
@@ -182,6 +186,15 @@ func propC20(c c20Case) (ev.Outcome, error) {
 				if q == p {
 					found++
 				}
+				if qu := q.Extractor.ToPURL(q); qu == nil || qu.Name != u.Name || qu.Type != u.Type {
+					return o, fmt.Errorf("detector %s: GetSpecific(%q, %q) returns package %s@%s whose purl is %v", det.N, u.Name, u.Type, q.Name, q.Version, qu)
+				}
+			}
+			if u.Namespace != "" {
+				nsSeen = true
+			}
+			if u.Name != p.Name {
+				nameDiffers = true
 			}
 			if found != 1 {
 				return o, fmt.Errorf("detector %s: GetSpecific(%q, %q) returns package %s@%s %d times", det.N, u.Name, u.Type, p.Name, p.Version, found)
@@ -191,6 +204,16 @@ func propC20(c c20Case) (ev.Outcome, error) {
 				if q == p {
 					found++
 				}
+				if qu := q.Extractor.ToPURL(q); qu == nil || qu.Type != u.Type {
+					return o, fmt.Errorf("detector %s: GetAllOfType(%q) returns package %s@%s whose purl is %v", det.N, u.Type, q.Name, q.Version, qu)
+				}
+			}
+			// a type or a name that no extracted package has selects nothing
+			if r := s.px.GetSpecific(u.Name, "absent-type"); len(r) != 0 {
+				return o, fmt.Errorf("detector %s: GetSpecific(%q, absent-type) returns %d packages", det.N, u.Name, len(r))
+			}
+			if r := s.px.GetSpecific(u.Name+"/absent", u.Type); len(r) != 0 {
+				return o, fmt.Errorf("detector %s: GetSpecific(%q, %q) returns %d packages", det.N, u.Name+"/absent", u.Type, len(r))
 			}
 			if found != 1 {
 				return o, fmt.Errorf("detector %s: GetAllOfType(%q) returns package %s@%s %d times", det.N, u.Type, p.Name, p.Version, found)
@@ -289,6 +312,12 @@ func propC20(c c20Case) (ev.Outcome, error) {
 		if d.Fail && len(d.Findings) > 0 {
 			o.Classes = append(o.Classes, "detector_error_with_findings")
 		}
+	}
+	if nsSeen {
+		o.Classes = append(o.Classes, "purl_with_namespace")
+	}
+	if nameDiffers {
+		o.Classes = append(o.Classes, "purl_name_differs_from_package_name")
 	}
 	if nNoPurl > 0 {
 		o.Classes = append(o.Classes, "packages_without_purl")
